@@ -37,16 +37,22 @@ type solveResult struct {
 }
 
 func (o *Obligation) script(getValues []string) string {
-	var sb strings.Builder
-	sb.WriteString("(set-option :produce-models true)\n(set-logic ALL)\n")
-	for _, l := range o.VC.eng.header(o.VC) {
-		sb.WriteString(l)
-		sb.WriteByte('\n')
+	var body strings.Builder
+	for _, l := range o.VC.eng.header(o.VC, o.Cover) {
+		body.WriteString(l)
+		body.WriteByte('\n')
 	}
 	for _, l := range o.VC.lines[:o.Prefix] {
-		sb.WriteString(l)
-		sb.WriteByte('\n')
+		body.WriteString(l)
+		body.WriteByte('\n')
 	}
+	var sb strings.Builder
+	logic := "QF_AUFBV"
+	if strings.Contains(body.String(), "(forall ") || strings.Contains(body.String(), "(exists ") || strings.Contains(o.Goal, "(forall ") || strings.Contains(o.Goal, "(exists ") || strings.Contains(body.String(), "define-fun-rec") || strings.Contains(body.String(), "define-funs-rec") {
+		logic = "ALL"
+	}
+	sb.WriteString("(set-option :produce-models true)\n(set-logic " + logic + ")\n")
+	sb.WriteString(body.String())
 	if o.Cover {
 		sb.WriteString("(assert " + o.Goal + ")\n")
 	} else {
